@@ -6,6 +6,8 @@ package absnfs
 // FileHandleMap itself and the NFS procedures that issue handles.
 
 import (
+	"reflect"
+	"unsafe"
 	"encoding/json"
 	"fmt"
 	"sort"
@@ -498,7 +500,10 @@ func (s *nhState) apply(op nhOp, check bool, hist []nhOp) {
 		// this harness drives HandleCall directly, so it does the same without a listener
 		// (the real Export / Unexport / Export path over TCP is C28's)
 		s.e.nfs.policyRWMu.Lock()
-		s.e.nfs.closed = false
+		if f := reflect.ValueOf(s.e.nfs).Elem().FieldByName("closed"); f.IsValid() && f.Kind() == reflect.Bool {
+			// by name, so that a tree without the mark (before that fix) still builds
+			*(*bool)(unsafe.Pointer(f.UnsafeAddr())) = false
+		}
 		s.e.nfs.policyRWMu.Unlock()
 	}
 	for _, is := range issued {
